@@ -131,9 +131,11 @@ CHECKS = {
         "with either endianness, constants); csr.h/mem.h/soc.h/csr.json/csr.csv/csr.svd written by the real Builder, read back "
         "and cross-checked; a Wishbone master (through the real add_adapter chain) performs, for every register, the access "
         "sequence parsed from the GENERATED accessor: exactly the addressed storage must take the unique value, every status "
-        "must read back its driven value; memory regions written/read at first/last word; ROM read back byte by byte.",
+        "must read back its driven value; memory regions written/read at first/last word; ROM read back byte by byte; with a CPU "
+        "stub that has an interrupt vector, every peripheral interrupt (automatic and fixed numbers) is enabled through its "
+        "generated accessor and raised alone: exactly the published bit of the vector must rise.",
    note="Configuration swarm without fault kinds (stated). Known findings C14-F1 (8-bit CSR bus addresses) and C14-F2 (little "
-        "ordering accessors) excluded by region; interrupt numbers need a CPU and are not covered.",
+        "ordering accessors) excluded by region. The CPU is CPUNone plus an interrupt signal (no real CPU package is installed).",
    tech="deterministic simulation of whole generated SoCs over a configuration swarm, accessor-driven bus accesses, export cross-check"),
  "C15": dict(cat="fault_enumeration", ref="DESIGN.md 5.C15",
    text="Real EventManager (1-12 sources: pulse, process rising/falling, level) behind a real CSRBank (8/32-bit) and SharedIRQ "
